@@ -27,10 +27,15 @@ func VerifC40VerifyResultSignature(c Chain, startBlock uint64, s *dkg.SignedResu
 }
 
 func VerifC40SubmitResult(ctx context.Context, c Chain, gp *GroupParameters, gsr *GroupSelectionResult,
-	memberIndex group.MemberIndex, r *dkg.Result, signatures map[group.MemberIndex][]byte) error {
-	wait := func(context.Context, uint64) error { return nil }
+	memberIndex group.MemberIndex, r *dkg.Result, signatures map[group.MemberIndex][]byte, wait func(context.Context, uint64) error) error {
 	return newDkgResultSubmitter(c40Logger, c, gp, gsr, wait).SubmitResult(ctx, memberIndex, r, signatures)
 }
+
+// the submission delay steps (blocks per member index)
+const (
+	VerifC40DkgDelayStep   = dkgResultSubmissionDelayStepBlocks
+	VerifC40ClaimDelayStep = inactivityClaimSubmissionDelayStepBlocks
+)
 
 func VerifC40FinalSigningGroup(selected []chain.Address, operating []group.MemberIndex, gp *GroupParameters) (
 	[]chain.Address, map[group.MemberIndex]group.MemberIndex, error) {
@@ -46,7 +51,6 @@ func VerifC40VerifyClaimSignature(c Chain, s *inactivity.SignedClaimHash) (bool,
 }
 
 func VerifC40SubmitClaim(ctx context.Context, c Chain, gp *GroupParameters, groupMembers []uint32,
-	memberIndex group.MemberIndex, claim *inactivity.ClaimPreimage, signatures map[group.MemberIndex][]byte) error {
-	wait := func(context.Context, uint64) error { return nil }
+	memberIndex group.MemberIndex, claim *inactivity.ClaimPreimage, signatures map[group.MemberIndex][]byte, wait func(context.Context, uint64) error) error {
 	return newInactivityClaimSubmitter(c40Logger, c, gp, groupMembers, wait).SubmitClaim(ctx, memberIndex, claim, signatures)
 }
